@@ -1,0 +1,43 @@
+//go:build verif
+
+package evaluator
+
+import "sort"
+
+// This file is only compiled with the "verif" build tag. It exposes a
+// read-only view of the global scope for external verification tooling and
+// does not change behaviour.
+
+// VerifGlobals returns the global variables (name -> printed value) in name order.
+func (e *Evaluator) VerifGlobals() (names []string, vals []string, kinds []string) {
+	for name := range e.global.values {
+		names = append(names, name)
+	}
+	sort.Strings(names)
+	for _, name := range names {
+		v := e.global.values[name]
+		vals = append(vals, v.String())
+		kinds = append(kinds, verifKind(v))
+	}
+	return names, vals, kinds
+}
+
+func verifKind(v value) string {
+	switch v := v.(type) {
+	case *numVal:
+		return "num"
+	case *boolVal:
+		return "bool"
+	case *stringVal:
+		return "string"
+	case *arrayVal:
+		return "array"
+	case *mapVal:
+		return "map"
+	case *anyVal:
+		return "any:" + verifKind(v.V)
+	case *noneVal:
+		return "none"
+	}
+	return "unknown"
+}
